@@ -1,5 +1,6 @@
 import Verif.Proofs.Text
 import Verif.Proofs.TextBytes
+import Verif.Proofs.TextFix
 /-!
 C17 — Textual and byte encodings of numbers round-trip.
 
@@ -12,15 +13,18 @@ Not proved here (stated, with the proved `_partial` beside them):
 * `string_roundtrip` for the four fixed-point types, and `grammar_width_independent` for them — the
   latter is *false* of the current code (`fraction_unscaled_witness`, known finding
   `fixed-fromstring-fraction-compared-unscaled`); the stream compares both on every generated input.
-* `bytes_roundtrip` for `Int`, `UInt` (minimal-length encodings) and the 128/256-bit integer types
-  (signed interpretation of the given bytes); compared by the stream (ops `rtb`).
+  The known finding does not touch the round trip: `toString` always writes exactly `scale`
+  fractional digits (`fixed_toString_shape`), so the fraction `CheckRange` compares *is* at the type's
+  scale for every printed value; the remaining steps (`splitDot`, the sign of `-0.x`, `CheckRange` on
+  truncated quotient / remainder, the final wrap) are compared by the stream (ops `rts`).
 * addresses, hex strings and paths are not modelled.
 -/
 namespace Verif.Properties.C17
 open Verif.Model.NumT Verif.Model.Text Verif.Spec.Text Verif.Proofs.Text
 
 /-- Full statement: `∀ T x, T.inRange x → fromString T (toString T x) = some x`.
-    Proved for the 20 integer types (all widths, `Int` and `UInt` included). -/
+    Proved for the 20 integer types (all widths, `Int` and `UInt` included); for the four fixed-point
+    types see `fixed_toString_shape` (first half of the argument). -/
 theorem string_roundtrip_partial (t : NumTy) (ht : t.fixed = false) (x : Int) (h : t.inRange x) :
     fromString t (Verif.Model.Text.toString t x) = some x :=
   string_roundtrip_int t ht x h
@@ -66,6 +70,15 @@ theorem same_grammar_same_signedness (t u : NumTy) (ht : t.fixed = false) (hu : 
 example : fromString .uint128 "+1".toList = none ∧ fromString .uint64 "+1".toList = none
     ∧ fromString .word256 "-0".toList = none ∧ fromString .uint "-1".toList = none
     ∧ fromString .int128 "+1".toList = some 1 ∧ fromString .int8 "+1".toList = some 1 := by decide
+
+/-- What `toString` of a fixed-point value looks like, for every raw value: an integer text, a dot, then
+    **exactly `scale` digits** whose value is the magnitude of the truncated fractional part.  Hence
+    `fromString` of a printed value sees `parsedScale = scale`: the region of the known finding
+    (fraction written with fewer than `scale` digits, compared unscaled) is never produced by `toString`. -/
+theorem fixed_toString_shape (t : NumTy) (ht : t.fixed = true) (x : Int) :
+    ∃ ip fp, Verif.Model.Text.toString t x = ip ++ '.' :: fp ∧ fp.length = t.scale ∧ fp.all isDigit = true ∧
+      ofDigits fp = (Int.tmod x ((10 : Int) ^ t.scale)).natAbs :=
+  fixText_shape t ht x
 
 /-- The known finding, proved of the model: the fixed-point parser accepts an out-of-range string whose
     fraction has fewer digits than the scale and returns a wrapped value; the grammar spec says `nil`. -/
